@@ -114,14 +114,20 @@ where
             if !matches!(c.spec, Spec::HalfLine { .. } | Spec::BoxGauss { .. }) {
                 let mut r0 = SmallRng::seed_from_u64(c.seed);
                 let p0: Vec<f64> = (&mut r0).sample_iter(StandardNormal).take(start_r.len()).map(|v: T| f(v)).collect();
-                let (ea, ma) = rn::find_reasonable_epsilon(&c.spec, &start_r, &p0, false);
-                let (eb, mb) = rn::find_reasonable_epsilon(&c.spec, &start_r, &p0, true);
+                let (ea, ma, nonfinite_a) = rn::find_reasonable_epsilon(&c.spec, &start_r, &p0, false);
+                let (eb, mb, _) = rn::find_reasonable_epsilon(&c.spec, &start_r, &p0, true);
                 let mtol = if rtol > 1e-6 { 1e-3 } else { 1e-9 };
                 if ma.min(mb) < mtol {
                     cov.class("eps0-ambiguous");
                 } else {
+                    if nonfinite_a {
+                        cov.class("eps0-first-step-out-of-support");
+                    }
+                    // Algorithm 4 as printed does not say what to do when a trial step leaves the
+                    // support (non-finite energy change): there only the back-off variant of the
+                    // cited implementation defines a "reasonable" step size
                     ensure!(
-                        close(e0, ea, 1e-6) || close(e0, eb, 1e-6),
+                        (!nonfinite_a && close(e0, ea, 1e-6)) || close(e0, eb, 1e-6),
                         "stepsize-eps0-heuristic",
                         "initial step size {e0} for {} at {:?} (momentum {:?}); doubling/halving heuristic gives {ea} (Algorithm 4) / {eb} (variant of the cited Python implementation)",
                         c.spec.name(),
